@@ -677,6 +677,15 @@ def w10(ctx):
 RULES.append(w10)
 
 
+@rule("W12", cfgs=["explanations", "checks_explanations"], doc="no panic in a union that makes a slot of the RIGHT operand redundant (explanations builds): the leader union hands shrink_slots / the retried union a proof oriented like the operands it passes (C07.K7) — a proof about the other class makes the transitivity kernel panic in record_redundancy_witness, in the middle of the union")
+def w12(ctx):
+    from . import c07
+    c07.k7(ctx)
+
+
+RULES.append(w12)
+
+
 @rule("W11", doc="the built-in cost function cannot overflow: AstSize::cost contains no checked arithmetic (an addition that panics on overflow, Iterator::sum / product) — sizes accumulate with saturating_add, so a class whose smallest term has 2^64 nodes (a sharing chain 64 deep) costs u64::MAX instead of aborting extraction")
 def w11(ctx):
     crate = ctx.lib()
